@@ -10,7 +10,7 @@ import z3
 
 from .core import CONST_AXIOMS, z3num_to_float
 from .funcs import UF, is_uf, rv
-from .fingerprint import fingerprint
+from .fingerprint import fingerprint, ATOM_FP, _memo as _FP_MEMO, P as FP_P
 
 STATS = {"queries": 0, "unsat": 0, "sat": 0, "unknown": 0, "solver_s": 0.0}
 
@@ -47,38 +47,36 @@ def _same_term(a, b):
     if key in _same_cache:
         return _same_cache[key][2]
     fa, fb = fingerprint(a), fingerprint(b)
-    if fa is None or fb is None or fa != fb:
+    if fa is not None and fb is not None and fa != fb:
         r = False
     else:
         from .ratform import is_identically_zero
-        r = is_identically_zero(a - b)
+        r = is_identically_zero(a - b, _SQRT_REL)
     _same_cache[key] = (a, b, r)
     return r
 
 
-def _reciprocal(a, b):
-    fa, fb = fingerprint(a), fingerprint(b)
-    if fa is None or fb is None or fa * fb != 1:
-        return False
-    from .ratform import is_identically_zero
-    return is_identically_zero(a * b - 1)
+_SQRT_REL = []  # (atom, abstracted argument) of the sqrt atoms of the abstraction being built
 
 
 def _log_power_relation(a, r):
     """rational k with a == r^k as rational functions (so log a == k log r), k in {-1, 2, -2, 1/2, -1/2}"""
     from .ratform import is_identically_zero
     fa, fr = fingerprint(a), fingerprint(r)
-    if fa is None or fr is None or fa == 0 or fr == 0:
-        return None
-    if fa * fr == 1 and is_identically_zero(a * r - 1):
+    M = FP_P
+    known = fa is not None and fr is not None
+
+    def ok(cond):
+        return (not known) or cond()
+    if ok(lambda: fa * fr % M == 1) and is_identically_zero(a * r - 1, _SQRT_REL):
         return z3.RealVal(-1)
-    if fa == fr * fr and is_identically_zero(a - r * r):
+    if ok(lambda: fa == fr * fr % M) and is_identically_zero(a - r * r, _SQRT_REL):
         return z3.RealVal(2)
-    if fa * fr * fr == 1 and is_identically_zero(a * r * r - 1):
+    if ok(lambda: fa * fr % M * fr % M == 1) and is_identically_zero(a * r * r - 1, _SQRT_REL):
         return z3.RealVal(-2)
-    if fa * fa == fr and is_identically_zero(a * a - r):
+    if ok(lambda: fa * fa % M == fr) and is_identically_zero(a * a - r, _SQRT_REL):
         return z3.RealVal("1/2")
-    if fa * fa * fr == 1 and is_identically_zero(a * a * r - 1):
+    if ok(lambda: fa * fa % M * fr % M == 1) and is_identically_zero(a * a * r - 1, _SQRT_REL):
         return z3.RealVal("-1/2")
     return None
 
@@ -91,6 +89,7 @@ class Abstraction:
         reps = {}
         self.sub = []
         self.atoms = []  # one (representative app, atom) per distinct atom
+        del _SQRT_REL[:]
         for i, a in enumerate(self.apps):  # post-order: inner applications first
             name = a.decl().name()
             # arguments with the inner applications already replaced by their (merged) atoms
@@ -107,10 +106,31 @@ class Abstraction:
                     if k is not None:
                         atom = k * v
                         break
+            if atom is None and name == "log":
+                # log(u) == log(r1) +- log(r2) when u == r1 * r2 or u == r1 / r2 as rational functions
+                lst = reps.get(name, [])
+                fa = fingerprint(aargs[0])
+                if len(lst) <= 10:
+                    from .ratform import is_identically_zero
+                    for (r1, ra1, v1), (r2, ra2, v2) in itertools.permutations(lst, 2):
+                        f1, f2 = fingerprint(ra1[0]), fingerprint(ra2[0])
+                        known = None not in (fa, f1, f2)
+                        if r1.get_id() < r2.get_id() and (not known or fa == f1 * f2 % FP_P) \
+                                and is_identically_zero(aargs[0] - ra1[0] * ra2[0], _SQRT_REL):
+                            atom = v1 + v2
+                            break
+                        if (not known or fa * f2 % FP_P == f1) and is_identically_zero(aargs[0] * ra2[0] - ra1[0], _SQRT_REL):
+                            atom = v1 - v2
+                            break
             if atom is None:
                 atom = z3.Real(f"@{name}#{i}")
+                # the atom evaluates like the application it stands for (keeps s^2 = u etc. exact)
+                _FP_MEMO.pop(atom.get_id(), None)
+                ATOM_FP[atom.get_id()] = (atom, fingerprint(a))
                 reps.setdefault(name, []).append((a, aargs, atom))
                 self.atoms.append((a, atom))
+                if name == "sqrt":
+                    _SQRT_REL.append((atom, aargs[0]))
             self.sub.append((a, atom))
         self._cache = {}
 
